@@ -47,7 +47,34 @@ def run(p: Project, tier: str) -> Result:
     check_index_agreement(ws, r)
     check_mutator_vocabulary(p, ws, r)
     check_no_failure_after_removal(ws, r)
+    r.ctx = ''
+    check_items_compare_by_identity(p, r)
     return r
+
+
+def check_items_compare_by_identity(p, r):
+    """R8: the stores take 'exactly the bound item' out with `ready_items.remove(item)` / `items.index(item)`: the first element that compares EQUAL
+    goes.  That is the bound object only while flow items compare by identity - a __eq__ on the id (or a @dataclass) lets a get return one object and
+    remove its twin: the returned item is still inside, the other one has vanished."""
+    from .common import value_equality_classes, class_family
+    r.rule('C02.R8', 'flow items compare by identity (no __eq__ / @dataclass in the classes of objects kept in store lists)', 0)
+    n = 0
+    for rel, c, how, line in value_equality_classes(p):
+        fam = class_family(p, rel, c)
+        subclasses = [x.name for m in p.raw().modules.values() for x in ast.walk(m.tree) if isinstance(x, ast.ClassDef) and c.name in class_family(p, rel, x)]
+        if rel.startswith('helper/') or 'BaseFlowItem' in fam or any(s_ in ('Item', 'Pallet', 'BaseFlowItem') for s_ in subclasses):
+            n += 1
+            r.fail('C02.R8', f'{rel}::{c.name}::value-equality', f'{c.name} {how}: list.remove / list.index in the stores then match the first EQUAL item, not the '
+                                                                f'bound object - one item is handed out twice and its twin disappears', src(rel), line)
+    r.ok('C02.R8', 'package::R8-scan', f'{n} flow-item class(es) with value equality', '', 0)
+    r.canaries['C02.R8'] = bool(list(_canary_hits()))
+
+
+def _canary_hits():
+    t = ast.parse('from dataclasses import dataclass\n@dataclass\nclass Part(BaseFlowItem):\n    id: str\n')
+    for c in ast.walk(t):
+        if isinstance(c, ast.ClassDef) and any(ast.unparse(d).endswith('dataclass') for d in c.decorator_list):
+            yield c
 
 
 def check_no_failure_after_removal(ws, r):
